@@ -13,21 +13,21 @@ import (
 
 // Solver is a long-lived SMT solver process driven over stdin/stdout.
 type Solver struct {
-	Name    string
-	cmd     *exec.Cmd
-	in      io.WriteCloser
-	out     *bufio.Reader
-	st      *Store
-	defined map[int]bool // term ids emitted as define-fun / declare
-	depth   int
-	Queries int
-	Sat     int
-	Unsat   int
-	Unknown int
-	Errors  int
-	Time    time.Duration
-	log     io.Writer
-	LastErr string
+	Name      string
+	cmd       *exec.Cmd
+	in        io.WriteCloser
+	out       *bufio.Reader
+	st        *Store
+	defined   map[int]bool // term ids emitted as define-fun / declare
+	depth     int
+	Queries   int
+	Sat       int
+	Unsat     int
+	Unknown   int
+	Errors    int
+	Time      time.Duration
+	log       io.Writer
+	LastErr   string
 	TimeoutMS int
 }
 
